@@ -25,6 +25,8 @@ pub trait Hooks: Sync {
     fn spawn(&self, name: String, f: Box<dyn FnOnce() + Send + 'static>);
     /// a key that identify the calling OS thread
     fn thread_key(&self) -> usize;
+    /// let some other thread run (the caller spins on something)
+    fn yield_now(&self);
 }
 
 static HOOKS: OnceLock<&'static dyn Hooks> = OnceLock::new();
@@ -146,6 +148,11 @@ pub mod atomic {
             impl Default for $name {
                 fn default() -> Self {
                     Self(<$std>::default())
+                }
+            }
+            impl From<$t> for $name {
+                fn from(v: $t) -> Self {
+                    Self::new(v)
                 }
             }
         };
